@@ -31,7 +31,7 @@ REGIMES = ["QQ", "QQ", "QQ", "REAL", "BOOL", "MT", "MP", "FLOAT"]
 
 
 def examples(tier):
-    return 960 if tier == "quick" else 20000
+    return 2880 if tier == "quick" else 32000
 
 
 @st.composite
